@@ -5,6 +5,7 @@ mod c01;
 mod c03;
 mod c07;
 mod c08;
+mod c09;
 mod c05;
 mod c11;
 mod c12;
@@ -60,6 +61,7 @@ fn main() {
         "C16" => c16::c16(&mut out, &mut rng, &tier),
         "C07" => c07::c07(&mut out, &mut rng, &tier),
         "C08" => c08::c08(&mut out, &mut rng, &tier),
+        "C09" => c09::c09(&mut out, &mut rng, &tier),
         "C05" => c05::c05(&mut out, &mut rng, &tier),
         "C06" => c05::c06_filter(&mut out, &mut rng, &tier),
         _ => {
